@@ -45,9 +45,11 @@ def hashrpdacModel (c : Case) : DictModel :=
   | none => base
   | some hs =>
     let d := Hash.build hs S
+    -- hypotheses of the hash theorems: the table holds the strings and its size passed nearest_prime's test
+    let ok := S.length ≤ d.tsize && (d.tsize % 2 != 0 && Hash.oddTrial d.tsize (Nat.sqrt d.tsize + 2) 3)
     { base with
-      locate := fun q => some (Hash.locate d q)
-      extract := fun i => some (Hash.extract d i)
+      locate := fun q => if ok then some (Hash.locate d q) else none
+      extract := fun i => if ok then some (Hash.extract d i) else none
       exact := true }
 
 /-- HASHRPDACBlocks: cut, per-part hash tables, routing by samples and starting indexes. -/
@@ -57,9 +59,12 @@ def blocksModel (c : Case) : DictModel :=
   let ov := c.geti "ov" 25
   if ov % 25 ≠ 0 then base else
   let d := Hash.buildBlocks (c.geti "cut" 64) (fun k => k * (100 + ov) / 100) S
+  -- the hypotheses of the Blocks theorems (`PartsOK`): every part's table holds its block and has a size
+  -- that passed nearest_prime's own test; otherwise the model refuses to answer (reported as MODEL-FAULT)
+  let ok := d.parts.all fun p => p.S.length ≤ p.tsize && (p.tsize % 2 != 0 && Hash.oddTrial p.tsize (Nat.sqrt p.tsize + 2) 3)
   { base with
-    locate := fun q => some (Hash.locateBlocks d q)
-    extract := fun i => some (Hash.extractBlocks d i)
+    locate := fun q => if ok then some (Hash.locateBlocks d q) else none
+    extract := fun i => if ok then some (Hash.extractBlocks d i) else none
     exact := true }
 
 def modelFor (c : Case) : DictModel :=
